@@ -5,6 +5,15 @@ COMMON_ASSUME = [
 ]
 NOT_APPLICABLE = {}
 PROPS = {
+    "C05": {
+        "claim": "TODO",
+        "note": "TODO",
+        "props_file": "props/C05.v",
+        "shards": (4, 16),
+        "rule": "TODO",
+        "assumptions": COMMON_ASSUME,
+        "trusted_base": [],
+    },
     "C16": {
         "claim": "Coq theorems (closed, no axioms) over an executable model of ic_principal's text codec (bitwise CRC-32, value-level RFC 4648 "
                  "base32 without padding with data-encoding's acceptance conditions, dash grouping, case handling, the 29-byte limit read from "
